@@ -347,6 +347,7 @@ const basePrelude = `(set-option :produce-models true)
 (set-logic ALL)
 (declare-fun slen! (Int) Int)
 (declare-fun sat! (Int Int) Int)
+(declare-fun sdiff! (Int Int) Int)
 (assert (forall ((s Int)) (! (and (>= (slen! s) 0) (<= (slen! s) 9223372036854775807)) :pattern ((slen! s)))))
 (assert (forall ((s Int) (i Int)) (! (and (<= 0 (sat! s i)) (<= (sat! s i) 255)) :pattern ((sat! s i)))))
 (declare-fun fncode! (Int) Int)
